@@ -226,6 +226,7 @@ template <typename T> static void general_rank3() {
     A3 t(pt, 0, dimensions(2, 2, n), dimensions(ps, rs, 1)), a(pa, 0, dimensions(2, 2, n), dimensions(ps, rs, 1));
     for (int i = 0; i < 2; ++i) for (int j = 0; j < 2; ++j) for (int k = 0; k < n; ++k) { a(i, j, k) = val<T>(); t(i, j, k) = T(-3); }
     int d[3] = { 2, 2, n }, st[3] = { ps, rs, 1 };
+    std::printf("P rank-3 %s arrays on user memory, dims 2x2x%d, strides %d %d 1, first element %d past a packet boundary\n", Name<T>::s(), n, ps, rs, sh);
     reset_log(); t = a + a;
     long h = adept::verif::simd_log().head, p = adept::verif::simd_log().packets, tl = adept::verif::simd_log().tail;
     int mism = 0; for (int i = 0; i < 2; ++i) for (int j = 0; j < 2; ++j) for (int k = 0; k < n; ++k) if (!same(t(i, j, k), a(i, j, k) + a(i, j, k))) ++mism;
@@ -247,6 +248,7 @@ template <typename T, int N> static void general_fixed1() {
     for (int i = 0; i < N + 4 * W; ++i) TP(i) = T(-5);
     V t = TP(range(ot, ot + N - 1));
     int d[1] = { N }, st[1] = { 1 };
+    std::printf("P FixedArray<%s,%d> %d past a packet boundary, target %d past\n", Name<T>::s(), N, k, ot);
     reset_log(); t = *f + *f;
     long h = adept::verif::simd_log().head, p = adept::verif::simd_log().packets, tl = adept::verif::simd_log().tail;
     int mism = 0; for (int i = 0; i < N; ++i) if (!same(t(i), (*f)(i) + (*f)(i))) ++mism;
@@ -270,6 +272,7 @@ template <typename T, int N> static void general_fixed2() {
     for (int j = 0; j < 3; ++j) { for (int i = 0; i < N; ++i) (*f)(j, i) = val<T>(); for (int i = 0; i < N + 4 * W; ++i) TP(j, i) = T(-5); }
     M t = TP(__, range(ot, ot + N - 1));
     int d[2] = { 3, N }, st[2] = { (int)t.offset(0), 1 }, sa[2] = { N, 1 };
+    std::printf("P FixedArray<%s,3,%d> %d past a packet boundary, target %d past\n", Name<T>::s(), N, k, ot);
     reset_log(); t = *f + *f;
     long h = adept::verif::simd_log().head, p = adept::verif::simd_log().packets, tl = adept::verif::simd_log().tail;
     int mism = 0; for (int j = 0; j < 3; ++j) for (int i = 0; i < N; ++i) if (!same(t(j, i), (*f)(j, i) + (*f)(j, i))) ++mism;
@@ -409,7 +412,7 @@ int main(int argc, char** argv) {
   if (argc > 4 && std::string(argv[4]) == "fxonly") fx_mode = 1;
   if (argc > 3) rng_state ^= std::strtoull(argv[3], 0, 10) * 0x2545F4914F6CDD1DULL;
   std::printf("B %d %d\n", (int)internal::Packet<float>::size, (int)internal::Packet<double>::size);
-  if (mode == "general") { general_all<float>(); general_all<double>(); }
+  if (mode == "general") { std::setvbuf(stdout, 0, _IOLBF, 0); general_all<float>(); general_all<double>(); }
   else if (mode == "assign") { assign_rank1<float>(full); assign_rank1<double>(full); assign_rank2<float>(full); assign_rank2<double>(full); }
   else if (mode == "reduce") { reduce_all<float>(full); reduce_all<double>(full); }
   else if (mode == "fastexp") { fastexp_all<float>(); fastexp_all<double>(); }
